@@ -68,6 +68,8 @@ def run(ctx):
     ctx.replay_vectors("MC_Codec", "MC_Codec.cfg", perform, "grid", classify, consts='CONSTANT Area = "cfdphdr"',
                        need_actions=("PickVector",))
     ctx.validate_events(events(ctx), "calls", classify)
+    from .. import repotests
+    repotests.codec_stage(ctx, "C05")       # the calls the repository's own tests make, judged by the specification
     ctx.exhaustive = False
     ctx.extra["exhaustive_subspaces"] = ["all 2^7 flag combinations x 16 width pairs (grid)",
                                          "all 65 536 (octet 1, octet 4) pairs through the decoder"] + (
